@@ -29,7 +29,7 @@ import logging
 import random
 from typing import Any
 
-from hv.gen.programs import World, run_steps
+from hv.gen.programs import World, blocks_of, run_steps
 from hv.inject import Injector
 from hv.loop import run_virtual
 from hv.record import Recorder
@@ -65,6 +65,8 @@ def child_steps(kind: str, name: str) -> list[dict[str, Any]]:
         return [{"op": "mark", "tag": name}]
     if kind == "gate":
         return [{"op": "gate", "label": f"{name}.g"}]
+    if kind == "cleanup-fails":
+        return [{"op": "gate", "label": f"lp-{name}", "on_cancel_raise": True}]  # blocked like "blocked"; if cancelled there, its cleanup raises
     return [{"op": "gate", "label": f"lp-{name}"}]  # blocked: low priority gate, released only when nothing else can run
 
 
@@ -78,12 +80,25 @@ def make_block(name: str, disp: list[list[str]], children: list[str], inner: lis
     b: dict[str, Any] = {"op": "block", "kind": kind, "name": name, "supply": [["D1", next(uid)]], "body": body}
     if disp and kind == "ascope":
         b["disposables"] = [{"yield": [["R1", next(uid)]] if i == 0 else [], "enter": d[0], "exit": d[1], "spawn": len(d) > 2} for i, d in enumerate(disp)]
+        if any(d[0].endswith("raise") for d in disp):
+            b["catch"] = "exceptions"  # the surrounding code handles the failing resource and carries on; a cancellation is not handled
     return b
 
 
 def small_programs():  # noqa: ANN201
     disp_opts: list[list[list[str]]] = [[], [["ok", "ok"]], [["gate", "ok"]], [["ok", "gate"]], [["gate", "gate"]], [["gate", "gate"], ["ok", "gate"]], [["gate", "ok", "spawn"]], [["gate", "gate", "spawn"], ["gate", "ok"]]]
-    child_opts: list[list[str]] = [[], ["now"], ["gate"], ["blocked"], ["blocked", "gate"]]
+    child_opts: list[list[str]] = [[], ["now"], ["gate"], ["blocked"], ["blocked", "gate"], ["cleanup-fails"], ["blocked", "cleanup-fails"]]
+    # a resource that fails to enter next to resources that did enter and whose cleanup suspends: the roll-back is one more place
+    # where the victim is suspended inside __aenter__
+    for disp in ([["raise", "ok"], ["ok", "gate"]], [["gate-raise", "ok"], ["ok", "gate"]], [["gate-raise", "gate"], ["gate", "gate"]], [["ok", "gate"], ["raise", "ok"], ["gate", "gate"]],
+                 # the failing resource had started a helper task in the scope's group: the roll-back then also waits for the group
+                 # while it is aborting on the enter error (known finding D37: asyncio.TaskGroup prefers that error over a cancellation)
+                 [["gate-raise", "ok", "spawn"], ["ok", "gate"]]):
+        uid = itertools.count(1)
+        yield [make_block("out", disp, [], [], uid), {"op": "gate", "label": "after.fallback"}]
+    # deterministic witnesses of known finding D38 / D38b: a child whose cleanup fails inside a nested scope, a blocked child outside
+    uid = itertools.count(1)
+    yield [make_block("out", [], ["blocked"], [make_block("in", [], ["cleanup-fails"], [], uid)], uid)]
     for disp, children, nesting in itertools.product(disp_opts, child_opts, ("none", "sscope", "updated", "ascope")):
         uid = itertools.count(1)
         inner: list[dict[str, Any]] = []
@@ -102,8 +117,8 @@ def random_program(rng: random.Random) -> list[dict[str, Any]]:
         name = f"b{next(n)}"
         kind = rng.choice(["ascope", "ascope", "sscope", "updated"]) if depth > 0 else "ascope"
         inner = [blk(depth + 1) for _ in range(rng.choice([0, 1, 1, 2]))] if depth < 2 else []
-        disp = [[rng.choice(["ok", "gate"]), rng.choice(["ok", "gate"]), *(["spawn"] if rng.random() < 0.3 else [])] for _ in range(rng.choice([0, 0, 1, 2]))]
-        children = [rng.choice(["now", "gate", "blocked"]) for _ in range(rng.choice([0, 1, 2]))] if kind == "ascope" else []
+        disp = [[rng.choice(["ok", "gate", "ok", "gate", "gate-raise", "raise"]), rng.choice(["ok", "gate"]), *(["spawn"] if rng.random() < 0.3 else [])] for _ in range(rng.choice([0, 0, 1, 2, 3]))]
+        children = [rng.choice(["now", "gate", "blocked", "blocked", "cleanup-fails"]) for _ in range(rng.choice([0, 1, 2]))] if kind == "ascope" else []
         return make_block(name, disp, children, inner, uid, kind)
 
     return [blk(0)]
@@ -173,6 +188,15 @@ def judge(R: Recorder, prog: list[dict[str, Any]], out: dict[str, Any], k: int, 
     R.case((prog, base_choices, k), nontrivial=phase in ("entering", "exiting"))
     R.count(f"delivered_in_{phase}")
     where = {"phase": phase}
+    if any(s.get("kind") == "cleanup-fails" for s in _spawns(prog)):
+        where["child_cleanup_fails"] = True
+        R.count("injections_into_programs_with_failing_child_cleanup")
+    if any(b.get("disposables") and any(d["enter"].endswith("raise") for d in b["disposables"]) and any(d.get("spawn") for d in b["disposables"]) for b in blocks_of(prog)):
+        # mechanism flag: some scope's enter fails while its task group already owns a task (started by a resource)
+        where["failing_enter_with_group_tasks"] = True
+        R.count("injections_into_programs_with_failing_enter_and_group_tasks")
+    elif any(b.get("disposables") and any(d["enter"].endswith("raise") for d in b["disposables"]) for b in blocks_of(prog)):
+        R.count("injections_into_programs_with_failing_enter")
     if out["status"] != "ok":
         R.monitor("terminates", False, where={**where, "kind": out["status"]}, detail=f"run ended {out['status']} ({out['value']!r}) after cancelling at point {k} ({phase}); victim={out.get('victim')}; events={W.events}", case=rec)
         return
@@ -191,9 +215,11 @@ def judge(R: Recorder, prog: list[dict[str, Any]], out: dict[str, Any], k: int, 
         if not t.done():
             bad = f"child {name} still pending at quiescence"
             break
-        is_blocked = name in W.spawned_by_disposable or any(s.get("kind") == "blocked" and s.get("name") == name for s in _spawns(prog))
+        is_blocked = name in W.spawned_by_disposable or any(s.get("kind") in ("blocked", "cleanup-fails") and s.get("name") == name for s in _spawns(prog))
         if is_blocked and name in spawned_before and f"lp-{name}" not in released:
             blocked_now += 1
+            if any(s.get("kind") == "cleanup-fails" and s.get("name") == name for s in _spawns(prog)) and ("cleanup-fails", f"lp-{name}") in W.events:
+                continue  # it was cancelled (it saw the CancelledError) and then failed in its cleanup: cancelled as far as the scope goes
             if not t.cancelled():
                 bad = f"child {name} was blocked when the cancellation arrived but ended {'with ' + repr(t.exception()) if t.exception() else 'normally'}"
                 break
